@@ -29,6 +29,17 @@ WD5 = arcs(5, [(0, 1), (1, 2), (2, 3), (3, 4), (4, 0), (0, 2), (2, 0), (1, 3)], 
 SU4 = und(4, [(0, 1), (1, 2), (2, 3), (0, 3), (0, 2)], [1, -2, 3, -4, 5])
 SD4 = arcs(4, [(0, 1), (2, 3), (0, 3), (2, 1), (1, 0)], [1, -2, -3, 4, 5])
 AGREE4 = np.array([[0, .9, .1, 0], [.9, 0, .2, .1], [.1, .2, 0, .8], [0, .1, .8, 0]])
+def _noisy_agreement(n, a, b, m):
+    D = np.zeros((n, n))
+    for i in range(n):
+        for j in range(i + 1, n):
+            D[i, j] = D[j, i] = ((i * a + j * b + i * j) % m) / float(m)
+    return D
+
+
+# agreement matrices on which consensus_und needs several clustering rounds (the generator is re-used across rounds)
+NOISY9 = _noisy_agreement(9, 2, 9, 7)
+NOISY9B = _noisy_agreement(9, 5, 11, 13)
 XYZ5 = np.array([[0, 0, 0], [1, 0, 0], [0, 1, 0], [0, 0, 1], [1, 1, 1]], dtype=float)
 DIST5 = np.sqrt(((XYZ5[:, None, :] - XYZ5[None, :, :]) ** 2).sum(axis=2))
 
@@ -78,7 +89,8 @@ TABLE = {
     'modularity_finetune_und_sign': [((SU4,), {})],
     'modularity_probtune_und_sign': [((SU4,), {}), ((SU4,), {'p': 0.9, 'ci': np.array([1, 2, 1, 2])})],
     'core_periphery_dir': [((BD5,), {}), ((BU5,), {})],
-    'consensus_und': [((AGREE4, 0.3), {'reps': 4}), ((AGREE4, 0.05), {'reps': 3})],
+    'consensus_und': [((AGREE4, 0.3), {'reps': 4}), ((AGREE4, 0.05), {'reps': 3}), ((NOISY9, 0.2), {'reps': 2}),
+                      ((NOISY9B, 0.35), {'reps': 2})],
     'rentian_scaling': [((BU5, XYZ5, 6), {})],
     'nbs_bct': [((NBS_X, NBS_Y, 2.0), {'k': 4}), ((NBS_X, NBS_Y, 2.0), {'k': 3, 'paired': True})],
     'generative_model': [((np.zeros((5, 5)), DIST5, 4, np.array([-1.0])),
